@@ -92,7 +92,8 @@ NAME_KINDS_BLOCK = [block_names.SYNTH_ASSIGN, block_names.SYNTH_HEAD, block_name
                     block_names.PYTHON_BYTECODE]
 NAME_KINDS_REGION = ["loop", "head", "branch", "tail", "meta"]
 NAME_KINDS_VAR = ["control", "exit", "backedge"]
-NAME_KINDS_FREE = ["x", "a_block_1", "foo_region_0", "synth_asign_block", "loop_region", "0", "k_var_1"]
+NAME_KINDS_FREE = ["x", "a_block_1", "foo_region_0", "synth_asign_block", "loop_region", "0", "k_var_1",
+                   "exit-latch", "exit_latch", "loop.exit", "loop_exit", "a b", "a_b", "control ", "x-1", "x_1"]
 
 
 # ---------------------------------------------------------------- configuration
@@ -107,7 +108,15 @@ def gen_case(rng, tier, params=None):
                         ("bcref", 1.5 if focus == "C15" else 0.4)])
     nmax = 10 if quick else 16
     n = cfg.randint(3, nmax)
-    if fam == "bcref":
+    if focus == "C15" and cfg.chance(0.12):
+        # a flat graph of any shape (unreachable blocks, dead cycles, several
+        # heads): it can be built through from_dict/from_yaml, so it must
+        # round-trip; no stage is ever applied to it
+        fam = "open"
+        wl = {"kind": "graph", "family": "open", "allow_open": True,
+              "blocks": graphgen.gen_open(rng.fork("graph"), n)}
+        style = "frontend"
+    elif fam == "bcref":
         from sim import stdcorpus
         wl = {"kind": "bcref", "ref": cfg.choice(stdcorpus.list_refs(300 if quick else 1000))}
         style = "frontend"
@@ -137,6 +146,10 @@ def gen_case(rng, tier, params=None):
     enabled = {"restart-dict": cfg.chance(0.8), "restart-yaml": cfg.chance(0.6), "restart2": cfg.chance(0.5)}
     if not faults:
         enabled = {"restart-dict": False, "restart-yaml": False, "restart2": False}
+    if fam == "open":
+        weights = {"stage": 0, "edit": 0, "name": 1, "restart": 6, "restart2": 3, "probe": 0}
+        faults = True
+        enabled = {"restart-dict": True, "restart-yaml": True, "restart2": True}
     conf = {
         "focus": focus, "faults": faults, "enabled": enabled, "weights": weights,
         "nops": cfg.randint(2, 12) if cfg.chance(0.8) else cfg.randint(12, 40 if not quick else 24),
@@ -145,7 +158,7 @@ def gen_case(rng, tier, params=None):
         "edit_kinds": {"insert": 4, "control": 3 if cfg.chance(0.8) else 0,
                        "join_returns": 1, "jte": 2 if cfg.chance(0.7) else 0},
         "pre_stages": (cfg.weighted([(0, 3), (1, 1), (2, 3), (3, 2)]) if focus == "C14"
-                       else 0 if focus == "C04" else cfg.weighted([(0, 5), (1, 1), (2, 1), (3, 1)])),
+                       else 0 if (focus == "C04" or fam == "open") else cfg.weighted([(0, 5), (1, 1), (2, 1), (3, 1)])),
         "literal_names": cfg.chance(0.4),
         "allow_be_in_S": cfg.chance(0.15),
         "style": style,
